@@ -569,6 +569,24 @@ def run_lines(ctx, name, lines):
             ctx.disagree(name, line[:400], model[:400], real[:400])
 
 
+def run_batches(ctx, batches):
+    """one driver process for everything (every session starts with `reset`)"""
+    allines = [l for _, ls in batches for l in ls]
+    replies = ctx.lean(DRIVER, [l[0] for l in allines])
+    i = 0
+    for name, ls in batches:
+        for (line, real, desc, key) in ls:
+            model = replies[i]
+            i += 1
+            if desc is not None:
+                ctx.case(desc, key)
+            if model == 'unmodelled':
+                ctx.count('model:unmodelled')
+                continue
+            if model != real:
+                ctx.disagree(name, line[:400], model[:400], real[:400])
+
+
 def stored_name(crc):
     return '%08X.json' % crc
 
@@ -823,12 +841,15 @@ def correspond(ctx):
 
     # (0) corpus first
     texts = []
+    corpus_prefix = []
     if os.path.isdir(CORPUS):
         for fn in sorted(os.listdir(CORPUS)):
             if fn.endswith('.json'):
                 item = json.load(open(os.path.join(CORPUS, fn)))
                 for t in item.get('texts_hex', []):
                     texts.append(('corpus:' + fn, bytes.fromhex(t)))
+                for t in item.get('every_prefix_hex', []):
+                    corpus_prefix.append(bytes.fromhex(t))
 
     # (1) json.loads/_decoder vs Json.parse on fixed + generated + mutated texts
     for t in FIXED_TEXTS:
@@ -852,7 +873,11 @@ def correspond(ctx):
         ctx.count('text:' + kind)
         ctx.count('loads:' + real.split(' ')[0])
         lines.append(('loads ' + hexb(data), real, {'op': 'loads', 'kind': kind, 'len': len(data)}, ('loads', data)))
-    run_lines(ctx, 'json.load(object_hook=_decoder) vs Json.loads', lines)
+    for data in corpus_prefix:
+        good = ['%d:ok' % k for k in range(len(data) + 1) if real_loads(data[:k]) != 'exc']
+        ctx.count('truncation-offsets', len(data))
+        lines.append(('prefixes ' + hexb(data), 'ok ' + (','.join(good) or '-'), {'op': 'every-truncation(corpus)', 'bytes': len(data)}, ('prefixes', data)))
+    batches = [('json.load(object_hook=_decoder) vs Json.loads', lines)]
 
     # (2) json.dumps vs Json.print, load = store, EVERY truncation offset
     sess = Session(ctx)
@@ -884,7 +909,7 @@ def correspond(ctx):
             sess.emit('prefixes ' + hexb(data), 'ok ' + (','.join(good) or '-'), {'op': 'every-truncation', 'bytes': len(data)}, ('prefixes', data))
     finally:
         sess.close()
-    run_lines(ctx, 'TocCache insert/fetch/truncation vs model', sess.lines)
+    batches.append(('TocCache insert/fetch/truncation vs model', sess.lines))
 
     # (3) scenarios: ro/rw combinations, foreign and colliding names, failures, cuts, restarts
     for sc in range(120 if thorough else 30):
@@ -893,7 +918,7 @@ def correspond(ctx):
             scenario(ctx, sess, rng, types, sc)
         finally:
             sess.close()
-        run_lines(ctx, 'TocCache scenario vs model', sess.lines)
+        batches.append(('TocCache scenario vs model', sess.lines))
 
     # (4) TocFetcher cache paths with a fake Crazyflie
     for sc in range(60 if thorough else 16):
@@ -902,7 +927,8 @@ def correspond(ctx):
             fetcher_scenario(ctx, sess, rng, sc)
         finally:
             sess.close()
-        run_lines(ctx, 'TocFetcher cache paths vs model', sess.lines)
+        batches.append(('TocFetcher cache paths vs model', sess.lines))
+    run_batches(ctx, batches)
 
 
 def scenario(ctx, sess, rng, types, sc):
@@ -1139,14 +1165,22 @@ def search(ctx):
             for other in (crc ^ 1, crc ^ 0x80000000, (crc + 1) % 2 ** 32, (crc * 16) % 2 ** 32, crc >> 4):
                 if other in stored or other in shipped or other == crc:
                     continue
-                if cache.fetch(other) is not None:
+                try:
+                    r_other = cache.fetch(other)
+                except Exception as e:
+                    r_other = e
+                if r_other is not None:
                     ctx.witness('wrong-crc-hit', 'fetch(%08X) returned a table although nothing was stored under it' % other, {'stored': crc, 'asked': other})
         # (d) each checksum yields the table LAST stored under it (shipped ones unless overwritten in rw)
         fresh = tc.TocCache(ro_cache=ro, rw_cache=rw)
         for crc, toc in list(shipped.items()) + list(stored.items()):
             if crc in stored:
                 toc = stored[crc]
-            got = fresh.fetch(crc)
+            try:
+                got = fresh.fetch(crc)
+            except Exception as e:
+                ctx.witness('fetch-raised', 'fetch raised ' + type(e).__name__, {'crc': crc, 'toc': toc_spec(toc)})
+                continue
             if got is None and (has_class_key(toc) or not toc):
                 continue
             if table_fields(got) != want_fields(toc):
@@ -1237,9 +1271,13 @@ def search(ctx):
                 c = tc.TocCache(ro_cache=ro, rw_cache=rw)
                 cf = FakeCF(4, 5 if cls == 'L' else 2, crc, elems)
                 holder, done = Toc(), []
-                TocFetcher(cf, ecls, cf.port, holder, lambda: done.append(1), c).start()
-                while cf.sent and cf.cb is not None:
-                    cf.cb(cf.reply_for(cf.sent.pop(0)))
+                try:
+                    TocFetcher(cf, ecls, cf.port, holder, lambda: done.append(1), c).start()
+                    while cf.sent and cf.cb is not None:
+                        cf.cb(cf.reply_for(cf.sent.pop(0)))
+                except Exception as e:
+                    ctx.witness('connection-failed', 'TOC fetch raised %s with colliding checksums' % type(e).__name__, {'first': first, 'second': second})
+                    continue
                 want = {}
                 for idx, (t, g, nm) in enumerate(elems):
                     e = ecls(idx, bytes([t]) + g.encode('latin-1') + b'\0' + nm.encode('latin-1') + b'\0')
